@@ -216,6 +216,7 @@ class ScenarioContainer(TagAndStatusStatement, Replayable):
 
         skipped = True
         passed_count = 0
+        untested_status = None
         for run_item in self.run_items:
             run_item_status = run_item.status
             if run_item_status.is_error():
@@ -223,16 +224,21 @@ class ScenarioContainer(TagAndStatusStatement, Replayable):
             elif run_item_status.is_failure():
                 return Status.failed
             elif run_item_status == Status.untested:
-                if passed_count > 0:
-                    # -- TEST-RUN WAS ABORTED: Some passed, now untested -> FAILED.
-                    return Status.failed
-                return Status.untested
+                # -- NOTE: A failed/error run-item that follows has precedence.
+                if untested_status is None:
+                    untested_status = Status.untested
+                    if passed_count > 0:
+                        # -- TEST-RUN WAS ABORTED: Some passed, now untested -> FAILED.
+                        untested_status = Status.failed
+                continue
             if run_item_status != Status.skipped:
                 # -- RESET: Skipped flag is some Status.passed is found.
                 skipped = False
             if run_item_status == Status.passed:
                 passed_count += 1
 
+        if untested_status is not None:
+            return untested_status
         if skipped:
             return Status.skipped
         # -- OTHERWISE:
